@@ -55,5 +55,5 @@ def probe(oracle, ws, idx, text):
     r = oracle.ask('answers', json.dumps(ws2))
     if not isinstance(r, dict) or 'dump' not in r:
         return ['the oracle answers %s' % str(r)[:300]], 0
-    bad = [k for k, a in r['dump'].items() if a == '<panic>' or (k.endswith('semantic_windows') and any(w[2] == '<panic>' for w in a))]
+    bad = [k for k, a in r['dump'].items() if a == '<panic>' or (k.endswith('semantic_windows') and isinstance(a, list) and any(w[2] == '<panic>' for w in a))]
     return bad, len(r['dump'])
